@@ -195,3 +195,24 @@ Proof.
   rewrite !le_dec_enc_small by (change (256 ^ N.of_nat 4) with 4294967296; unfold two32 in *; lia).
   reflexivity.
 Qed.
+
+(* ---- valuePointer.Less: a strict total order on (fid, offset, len) ---- *)
+Lemma vptr_less_irrefl p : vptr_less p p = false.
+Proof. unfold vptr_less. rewrite !N.eqb_refl. cbn. apply N.ltb_irrefl. Qed.
+
+Lemma vptr_less_trans p q r : vptr_less p q = true -> vptr_less q r = true -> vptr_less p r = true.
+Proof.
+  unfold vptr_less.
+  destruct (vp_fid p =? vp_fid q) eqn:F1; destruct (vp_fid q =? vp_fid r) eqn:F2;
+  destruct (vp_fid p =? vp_fid r) eqn:F3; cbn;
+  destruct (vp_off p =? vp_off q) eqn:O1; destruct (vp_off q =? vp_off r) eqn:O2;
+  destruct (vp_off p =? vp_off r) eqn:O3; cbn; lia.
+Qed.
+
+Lemma vptr_less_total p q : vptr_less p q = false -> vptr_less q p = false -> p = q.
+Proof.
+  unfold vptr_less. destruct p as [f1 l1 o1], q as [f2 l2 o2]; cbn.
+  destruct (f1 =? f2) eqn:F1; destruct (f2 =? f1) eqn:F2; cbn;
+  destruct (o1 =? o2) eqn:O1; destruct (o2 =? o1) eqn:O2; cbn; intros H1 H2; try lia.
+  f_equal; lia.
+Qed.
